@@ -9,8 +9,10 @@ Case kinds (all JSON):
 Timeouts come only from the script.  Two ways: 'T' = the wrapped socket raises socket.timeout (sockets
 used with timeout=None), and - cases with clk=1 - 'W' = the wall clock passes the deadline: the
 BufferedSocket is then used with timeout=1000.0 and `boltons.socketutils.time` is replaced, for the
-duration of the case, by a scripted clock (FakeClock) that jumps past the deadline exactly when the code
-looks at it with a 'W' at the head of the script, so the `cur_timeout <= 0.0` branches run deterministically.
+duration of each public call, by a complete scripted clock (FakeClock: time / monotonic / perf_counter / *_ns /
+sleep) whose value is a function of the socket events only: it jumps past any deadline when a socket call
+returns and leaves a 'W' at the head of the script, so the deadline branches run deterministically whichever
+clock function the code reads and however often it reads it.
 """
 import itertools
 import socket
@@ -41,6 +43,15 @@ class FakeSock:
         self.rscript = [e for e in rscript]
         self.sscript = [e for e in sscript]
         self.wire = b''
+        self.clock = None           # FakeClock of a clk=1 case: told about every socket event
+
+    def _io_done(self):
+        if self.clock is not None:
+            self.clock.after_io()
+
+    def _fault(self, ev):
+        if self.clock is not None and ev == 'W':
+            self.clock.consumed_by_socket()
 
     def gettimeout(self):
         return None
@@ -57,15 +68,25 @@ class FakeSock:
         ev = s[0]
         if ev == 'T' or ev == 'W':      # a recv that finds the deadline already passed times out too
             s.pop(0)
+            self._fault(ev)
             raise socket.timeout()
         if ev == 'E':
             s.pop(0)
             raise BlockingIOError(11, 'Resource temporarily unavailable')
         if len(ev) <= n:
             s.pop(0)
+            self._io_done()
             return ev
         s[0] = ev[n:]
+        self._io_done()
         return ev[:n]
+
+    def recv_into(self, buf, nbytes=0, flags=0):
+        # part of the socket API; the verified code does not use it, a changed one might
+        view = memoryview(buf)
+        data = self.recv(nbytes or len(view), flags)
+        view[:len(data)] = data
+        return len(data)
 
     def send(self, data, flags=0):
         data = bytes(data)
@@ -75,11 +96,13 @@ class FakeSock:
             return len(data)
         ev = s.pop(0)
         if ev == 'T' or ev == 'W':
+            self._fault(ev)
             raise socket.timeout()
         if ev == 'E':
             raise BlockingIOError(11, 'Resource temporarily unavailable')
         k = min(ev[1], len(data))
         self.wire += data[:k]
+        self._io_done()
         return k
 
     def sendall(self, data, flags=0):
@@ -95,40 +118,81 @@ class FakeSock:
 
 
 class FakeClock:
-    """Stands in for the `time` module inside boltons.socketutils while a clk=1 case runs.  The first
-    time() of every public call is that call's `start`; a later time() (a deadline check) that finds a
-    'W' at the head of the watched script consumes it and jumps far past any deadline."""
+    """Stands in for the `time` module inside boltons.socketutils while a clk=1 case runs.
+
+    The clock is a function of *socket events*, never of how often (or through which function) the code
+    reads it: a socket call that returns normally and leaves a 'W' at the head of the watched script makes
+    the clock jump far past any deadline (the W is then `armed`).  Whatever deadline check the code performs
+    next - time(), monotonic(), perf_counter(), ..._ns(), once or ten times - sees the deadline passed.  Code
+    that performs no check but goes back to the socket gets socket.timeout from the socket (FakeSock pops the
+    W).  Either way the W is used up by exactly one fault: `end_call` removes an armed W when the public call
+    ended in Timeout without the socket having consumed it.  A call that ends without looking at the clock
+    again leaves the W for the next call, whose own deadline starts after the jump."""
 
     def __init__(self, script):
         self.script = script
         self.now = 1000.0
-        self.first = True
+        self.armed = False
 
+    # -- driven by the harness / FakeSock
     def begin_call(self):
-        self.first = True
+        self.armed = False
 
-    def time(self):
-        if self.first:
-            self.first = False
-            return self.now
-        if self.script and self.script[0] == 'W':
-            self.script.pop(0)
+    def after_io(self):
+        if not self.armed and self.script and self.script[0] == 'W':
+            self.armed = True
             self.now += 1e9
+
+    def consumed_by_socket(self):
+        self.armed = False
+
+    def end_call(self, result):
+        if self.armed and result == 'timeout' and self.script and self.script[0] == 'W':
+            self.script.pop(0)
+        self.armed = False
+
+    # -- the `time` module API
+    def time(self):
         return self.now
+
+    monotonic = perf_counter = process_time = thread_time = time
+
+    def time_ns(self):
+        return int(self.now * 1e9)
+
+    monotonic_ns = perf_counter_ns = process_time_ns = thread_time_ns = time_ns
+
+    def sleep(self, secs):
+        return None
+
+    def __getattr__(self, name):
+        import time as _t
+        return getattr(_t, name)
 
 
 class patched_clock:
+    """`boltons.socketutils.time` (and any clock function the module imported by name from `time`) is the
+    scripted clock while one public call runs"""
+
     def __init__(self, clock):
         self.clock = clock
 
     def __enter__(self):
         import boltons.socketutils as su
-        self.su, self.saved = su, su.time
-        su.time = self.clock
+        self.su, self.saved = su, {}
+        for name, val in list(vars(su).items()):
+            if name == 'time' and not callable(val):
+                self.saved[name] = val
+                setattr(su, name, self.clock)
+            elif (callable(val) and getattr(val, '__module__', None) == 'time'
+                  and getattr(val, '__name__', '') in FakeClock.__dict__):
+                self.saved[name] = val
+                setattr(su, name, getattr(self.clock, val.__name__))
         return self.clock
 
     def __exit__(self, *a):
-        self.su.time = self.saved
+        for name, val in self.saved.items():
+            setattr(self.su, name, val)
         return False
 
 
@@ -206,9 +270,10 @@ class C12(Property):
     ASSUMPTIONS = [
         'the wrapped socket returns b"" from recv only at end of stream, never more than the requested bytes, and '
         'send returns how many bytes it took (scripted FakeSock in harness/bv/props/c12.py)',
-        'timeouts are scripted: raised by the wrapped socket (timeout=None) or, in clk=1 cases, by the '
-        '`cur_timeout <= 0` branches under a scripted clock substituted for boltons.socketutils.time '
-        '(timeout=1000.0); the real wall clock never decides anything',
+        'timeouts are scripted: raised by the wrapped socket (timeout=None) or, in clk=1 cases, by the code\'s own '
+        'deadline checks under a scripted clock substituted for boltons.socketutils.time (time, monotonic, '
+        'perf_counter, their _ns variants, sleep; timeout=1000.0) whose value depends on the socket events only, '
+        'not on the number of clock reads; the real clock never decides anything',
         'recvsize >= 1; sizes and maxsize are non-negative ints; flags=0',
         'read_ns size prefixes go through int(): the model of int(bytes) (parsePyInt) is compared with this '
         'interpreter\'s int() on every byte string of length <= 4 over a 12-letter alphabet on every run',
@@ -916,6 +981,8 @@ class C12(Property):
         fs = FakeSock(self._rscript(case['script']))
         clk = case.get('clk')
         clock = FakeClock(fs.rscript)
+        if clk:
+            fs.clock = clock
         bs = BufferedSocket(fs, timeout=CLK_TIMEOUT if clk else None, maxsize=case['ms'], recvsize=case['rs'])
         tries = 1 + (sum(1 for e in case['script'] if is_to(e)) if case['retry'] else 0)
         for i, op in enumerate(case['ops']):
@@ -937,6 +1004,7 @@ class C12(Property):
                     raise
                 except Exception as e:
                     rec['r'] = EXC.get(exc_name(e), 'exc:' + exc_name(e))
+                clock.end_call(rec['r'])
                 rb = bs.getrecvbuffer()
                 rec['rbuf'] = hx(bytes(rb)) if isinstance(rb, (bytes, bytearray)) else 'nonbytes'
                 rec['und'] = hx(fs.undelivered())
@@ -949,6 +1017,8 @@ class C12(Property):
         fs = FakeSock((), self._sscript(case['script']))
         clk = case.get('clk')
         clock = FakeClock(fs.sscript)
+        if clk:
+            fs.clock = clock
         bs = BufferedSocket(fs, timeout=CLK_TIMEOUT if clk else None)
         for i, op in enumerate(case['ops']):
             yield
@@ -969,6 +1039,7 @@ class C12(Property):
                 raise
             except Exception as e:
                 rec['r'] = EXC.get(exc_name(e), 'exc:' + exc_name(e))
+            clock.end_call(rec['r'])
             rec['sbuf'] = hx(bytes(bs.getsendbuffer()))
             rec['wire'] = hx(fs.wire)
             rec['left'] = sum(1 for e in fs.sscript if is_to(e))
